@@ -820,8 +820,8 @@ func main() {
 	c.Assume("per-operator meaning in the reference evaluation is origami's own operator node applied to constants (C03 judges those); only the grouping comes from the check's table")
 	c.Assume("groupings the statement leaves open keep their parentheses in the minimal printing: '.' against << >> < <= > >= <=> == != === !== & ^ | && ||, chains of comparison / equality / ?: operators, assignment inside a larger expression")
 	c.Assume("instanceof, like, xor/and/or, ++/--, array/member access are not in the statement's table and are not enumerated; deeper trees than the bound are not explored")
-	if len(outcomes) < 4 || len(edges) < 40 {
-		c.HarnessError("vacuous: %d outcome classes, %d classes of dropped parentheses", len(outcomes), len(edges))
+	if c.Exhaustive && (len(outcomes) < 4 || len(edges) < 40 || len(disc) < 60) {
+		c.HarnessError("vacuous: %d outcome classes, %d classes of dropped parentheses, %d of them told apart from the opposite grouping by the leaf values", len(outcomes), len(edges), len(disc))
 	}
 	c.Finish(trees, evals, cases, fmt.Sprintf("every well-typed expression tree with <= %d operators over %d operators (and with %d operators over the %d core operators) x leaf assignments (all boolean combinations, literal and variable leaves) x up to 6 printings; states = trees, validated = cases compared with the reference evaluation", maxFull, len(ops), coreSize, len(opsCore)))
 }
